@@ -669,7 +669,7 @@ func c13Hops(c *Ctx) {
 				continue
 			}
 			fv, ok := st.Addr.(*ssa.FreeVar)
-			if !ok || fv.Name() != "index" {
+			if !ok || pname(fv) != "index" {
 				continue
 			}
 			if bo, ok := st.Val.(*ssa.BinOp); ok {
